@@ -16,7 +16,9 @@ from vxlib.rustsrc import Lost
 
 PROBES = [('lenient-foreign-child', 'after lenient loading of a file that contains a sub-element of another version, calc_element_insert_range / list_valid_sub_elements / create_sub_element panic'),
           ('root-header-attributes', 'a successful set_attribute on a header attribute of the root element (xmlns) leaves a file that can no longer be loaded'),
-          ('mixed-set-character-data', 'set_character_data on an identifiable element with Mixed content (ECUC-QUERY-EXPRESSION in AUTOSAR_4-0-1) drops its SHORT-NAME')]
+          ('mixed-set-character-data', 'set_character_data on an identifiable element with Mixed content (ECUC-QUERY-EXPRESSION in AUTOSAR_4-0-1) drops its SHORT-NAME'),
+          ('foreign-type-move', 'move_element_here accepts an element whose name the destination lists with another element type (ALGORITHM-FAMILY: free text in CRYPTO-SERVICE-KEY, enumeration in CRYPTO-SERVICE-CERTIFICATE)'),
+          ('foreign-type-copy', 'create_copied_sub_element accepts an element whose name the destination lists with another element type (same scenario)')]
 
 
 def _editconform(ctx, res, budget, seed, name):
